@@ -201,7 +201,7 @@ def run(ctx):
     for (N, m) in curve.small_configs(8 if not th else 10):
         if N < 2:
             continue
-        for bx in BOXES + ("B4", "Z", "E", "D", "S", "F", "T", "U"):
+        for bx in BOXES + ("B4", "Z", "Zh", "E", "D", "S", "F", "T", "U"):
             btasks.append(dict(N=N, m=m, box=bx, via=None))
         for via, bx in curve.VIA_PAIRS:
             btasks.append(dict(N=N, m=m, box=bx, via=via))
